@@ -33,6 +33,14 @@ impl RngCore for Patterned {
         // rotates through the three limbs of a candidate), others small
         if self.ctr % 4 == 0 { u64::MAX } else { self.ctr }
       }
+      3 => {
+        // the first three words are zero: the first field element drawn is ZERO
+        if self.ctr <= 3 { 0 } else { self.ctr.wrapping_mul(0xD6E8_FEB8_6659_FD93) }
+      }
+      4 => {
+        // the second field element drawn is zero (words 4..6)
+        if (4..=6).contains(&self.ctr) { 0 } else { self.ctr.wrapping_mul(0xD6E8_FEB8_6659_FD93) ^ 0x55 }
+      }
       _ => (self.ctr << 56) | (self.ctr >> 3),
     }
   }
@@ -132,6 +140,8 @@ pub fn record(a: &Args) -> Report {
       secret.extend([0xAB; 7]);
     }
     let src0 = match d % 4 {
+      _ if d % 5 == 2 => Src::Pat(Patterned { ctr: 0, mode: 3 }),   // first draw is the zero element
+      _ if d % 5 == 4 => Src::Pat(Patterned { ctr: 0, mode: 4 }),   // second draw is the zero element
       0 | 1 => Src::Cha(rand_chacha::ChaCha8Rng::seed_from_u64(seed.wrapping_mul(31).wrapping_add(d))),
       2 => Src::Pat(Patterned { ctr: seed.wrapping_add(d), mode: 0 }),
       _ => Src::Pat(Patterned { ctr: d, mode: if d % 8 == 3 { 1 } else { 2 } }),
